@@ -8,20 +8,32 @@
   correspondence, harness/c11.py).
 
   The library answers (`o : Oracle ℝ`: density functions, masses_by_diameter; `amb`: ambient values)
-  are universally quantified.  Facts about the library that a statement needs are EXPLICIT, NAMED
-  hypotheses:
-    * `ScaleInvariant ρ`      — density depends on composition only (C10): ρ(c·m, T, P) = ρ(m, T, P), c > 0
-    * `DiameterRoundTrip o`   — diameter(masses_by_diameter(de, T, P, yk), T, P) = de          (C15)
-    * `CompositionRoundTrip o M` — mole fractions of masses_by_diameter(de, T, P, yk) are yk   (C15)
-      (both round trips are PROVED below for the transcribed `massesByDiameter` from `ScaleInvariant`)
-    * `PhaseConsistent M m xi` — the flash returns phase masses m = n·(xi ⊙ M) for its own mole fractions
-    * conservation of the flash (C02): m_gas + m_liq = mass_flux, compound by compound
-  and the in-domain guards (positive fluxes, densities, diameters, molar masses).
+  are universally quantified.  What a statement needs of the library is an EXPLICIT, NAMED HYPOTHESIS
+  (these are hypotheses, not lemmas, unless said otherwise):
+    * `ScaleInvariant ρ`  — ρ(c·m, T, P) = ρ(m, T, P) for c > 0.  HYPOTHESIS for an arbitrary oracle;
+      PROVED (`eos_density_scaleInvariant`, from `Props.C10.gen_density_smul`) for the density that is
+      regenerated from tamoc/dbm_p.py on every run, for every cubic root finder — so the `…_eos`
+      corollaries below carry no scale-invariance hypothesis.
+    * `DiameterRoundTrip o M`, `DiameterRoundTripI o`, `CompositionRoundTrip o M` — the library's
+      masses_by_diameter round trips, GUARDED (|yk| = |M|, Σ yk = 1, yk ≥ 0, density positive at the
+      one state involved).  HYPOTHESES for an arbitrary oracle; PROVED (`roundTrips_hold`) for the
+      transcribed `masses_by_diameter` / `mass_by_diameter` from `ScaleInvariant` and positive molar
+      masses, so the per-particle theorems are not vacuous (`…_transcribed` corollaries).
+    * `PhaseConsistent M m xi` — the flash hands over phase masses m = n·(xi ⊙ M) for its own mole
+      fractions (HYPOTHESIS; sampled on every real flash output by the harness).
+    * conservation of the flash, m_gas + m_liq = mass_flux compound by compound (HYPOTHESIS; it is
+      property C02, NOT imported as a lemma here; sampled by the harness).
+  and the in-domain guards (positive densities and diameters, positive molar masses).  Fluxes and
+  volume fractions may be zero (an empty size bin carries nothing: `bins_total` needs no positivity of vf).
+
+  Theorems marked (definitional) restate what the model computes; they pin the packing / conventions
+  and carry no algebraic content.
 -/
 import TamocV.Real
 import TamocV.Lemmas.Basic
 import TamocV.Lemmas.C11
 import TamocV.Model.Release
+import TamocV.Props.C10Gen
 import Mathlib.Tactic.Ring
 import Mathlib.Tactic.NormNum
 import Mathlib.Tactic.FieldSimp
@@ -37,24 +49,31 @@ open TamocV TamocV.Model.Release TamocV.Lemmas.C11
 def ScaleInvariant (ρ : List ℝ → ℝ → ℝ → ℝ) : Prop :=
   ∀ (c : ℝ) (m : List ℝ) (T P : ℝ), 0 < c → ρ (m.map (c * ·)) T P = ρ m T P
 
-/-- the library's diameter/mass round trip for a soluble particle (C15) -/
-def DiameterRoundTrip (o : Oracle ℝ) : Prop :=
-  ∀ (de T P : ℝ) (yk : List ℝ), 0 < de → diameter o.rho (o.mbd de T P yk) T P = de
+/-- all entries positive / non-negative -/
+def AllPos (l : List ℝ) : Prop := ∀ x ∈ l, 0 < x
+def AllNonneg (l : List ℝ) : Prop := ∀ x ∈ l, 0 ≤ x
 
-/-- the library's diameter/mass round trip for an insoluble particle (C15) -/
+/-- `yk` is a vector of mole fractions for the compounds with molar masses `M` -/
+def MoleFractions (M yk : List ℝ) : Prop := yk.length = M.length ∧ yk.sum = 1 ∧ AllNonneg yk
+
+/-- the library's diameter/mass round trip for a soluble particle (C15), guarded -/
+def DiameterRoundTrip (o : Oracle ℝ) (M : List ℝ) : Prop :=
+  ∀ (de T P : ℝ) (yk : List ℝ), 0 < de → MoleFractions M yk → 0 < o.rho (masses M yk) T P →
+    diameter o.rho (o.mbd de T P yk) T P = de
+
+/-- the library's diameter/mass round trip for an insoluble particle (C15), guarded -/
 def DiameterRoundTripI (o : Oracle ℝ) : Prop :=
-  ∀ (de T P Sa Ta : ℝ), 0 < de → diameterI o.rhoI (o.mbdI de T P Sa Ta) T P Sa Ta = de
+  ∀ (de T P Sa Ta : ℝ), 0 < de → 0 < o.rhoI T P Sa Ta →
+    diameterI o.rhoI (o.mbdI de T P Sa Ta) T P Sa Ta = de
 
-/-- `masses_by_diameter` builds a particle of the requested mole fractions (C15) -/
+/-- `masses_by_diameter` builds a particle of the requested mole fractions (C15), guarded -/
 def CompositionRoundTrip (o : Oracle ℝ) (M : List ℝ) : Prop :=
-  ∀ (de T P : ℝ) (yk : List ℝ), 0 < de → yk.sum = 1 → molFrac M (o.mbd de T P yk) = yk
+  ∀ (de T P : ℝ) (yk : List ℝ), 0 < de → MoleFractions M yk → 0 < o.rho (masses M yk) T P →
+    molFrac M (o.mbd de T P yk) = yk
 
 /-- what `FluidMixture.equilibrium` hands over for one phase: `m = masses(xi * n)` (dbm.py l.700-710) -/
 def PhaseConsistent (M m xi : List ℝ) : Prop :=
   ∃ n : ℝ, 0 < n ∧ (masses M xi).sum ≠ 0 ∧ m = (masses M xi).map (n * ·)
-
-/-- all entries positive -/
-def AllPos (l : List ℝ) : Prop := ∀ x ∈ l, 0 < x
 
 -- concrete state for the non-vacuity examples: a two-compound particle whose density depends on
 -- temperature and pressure only
@@ -64,33 +83,59 @@ private noncomputable def exAmb : Amb ℝ := { Ta := 280, Sa := 35, P := 56000 }
 
 private theorem exScale : ScaleInvariant (fun _ T P => P / (T * 100)) := fun _ _ _ _ _ => rfl
 
+private theorem exM : AllPos [2, 4] := by
+  intro x hx; simp at hx; rcases hx with h | h <;> rw [h] <;> norm_num
+
+private theorem exYk : MoleFractions [2, 4] [1/2, 1/2] := by
+  refine ⟨rfl, by norm_num, ?_⟩
+  intro x hx; simp at hx; rw [hx]; norm_num
+
+-- ===================================================================== scale invariance of the EOS density
+
+/-- the particle density of tamoc as regenerated from `dbm_p.density` on every run: phase row `fp`
+    (0 gas, 1 liquid) of the 2×1 result, for the mixture data `(M, Pc, Tc, Vc, ω, δ, Aij, Bij,
+    groups, calc_delta, C_pen, C_pen_T)` and ANY cubic root finder `cr` -/
+noncomputable def eosRho (cr : List ℝ → List ℝ × List ℝ) (fp : Nat) (M Pc Tc Vc w : List ℝ)
+    (δ A B G : List (List ℝ)) (cd : ℝ) (Cp CpT : List ℝ) : List ℝ → ℝ → ℝ → ℝ :=
+  fun m T P => ((Gen.EosFullPy.density cr T P m M Pc Tc Vc w δ A B G cd Cp CpT).getD fp []).getD 0 0
+
+/-- `ScaleInvariant` is a THEOREM for the regenerated equation of state (chained with
+    `Props.C10.gen_density_smul`): a change of dbm_p.py that lets the density see the total mass breaks
+    this proof. -/
+theorem eos_density_scaleInvariant (cr : List ℝ → List ℝ × List ℝ) (fp : Nat) (M Pc Tc Vc w : List ℝ)
+    (δ A B G : List (List ℝ)) (cd : ℝ) (Cp CpT : List ℝ) :
+    ScaleInvariant (eosRho cr fp M Pc Tc Vc w δ A B G cd Cp CpT) := by
+  intro c m T P hc
+  simp only [eosRho]
+  rw [Props.C10.gen_density_smul cr c (ne_of_gt hc)]
+
 -- ===================================================================== flux conventions
 
 /-- core: for the volume- and mass-flux conventions (`q_type` 1, 2), soluble or not,
-    number flux × per-particle component masses = total mass flux × mass fractions. -/
+    number flux × per-particle component masses = total mass flux × mass fractions
+    (also for a zero flux: then the number flux is 0 and the per-particle masses stay finite). -/
 theorem flux_eq_mdot (o : Oracle ℝ) (M : List ℝ) (sol : Bool) (amb : Amb ℝ) (yk : List ℝ) (q : ℝ)
     (qType : Nat) (de : ℝ) (T0 : Option ℝ) (hq : qType ≠ 0)
-    (hm : icMdot qType q (icRhoN o M sol yk) ≠ 0)
     (hr : icRhoP o M sol amb yk (releaseT amb T0) ≠ 0) (hd : de ≠ 0) :
     flux (initialConditions o M sol amb yk q qType de T0)
       = Num.smul (icMdot qType q (icRhoN o M sol yk)) (icMf M sol yk) := by
   simp only [initialConditions, if_neg hq, flux, Num.smul]
-  exact flux_core _ _ _ (icNb0_ne _ _ _ hm hr hd)
+  exact flux_core _ _ _ _ hr hd
 
 /-- MASS-FLUX convention (`q_type = 2`): `nb0 • m0 = q • mf` as vectors (soluble: `mf` = mass
     fractions of the prescribed mole fractions; insoluble: the single entry `q`). -/
 theorem flux_closed (o : Oracle ℝ) (M : List ℝ) (sol : Bool) (amb : Amb ℝ) (yk : List ℝ) (q de : ℝ)
-    (T0 : Option ℝ) (hm : q ≠ 0) (hr : icRhoP o M sol amb yk (releaseT amb T0) ≠ 0) (hd : de ≠ 0) :
+    (T0 : Option ℝ) (hr : icRhoP o M sol amb yk (releaseT amb T0) ≠ 0) (hd : de ≠ 0) :
     flux (initialConditions o M sol amb yk q 2 de T0) = Num.smul q (icMf M sol yk) := by
-  have h := flux_eq_mdot o M sol amb yk q 2 de T0 (by norm_num) (by simpa [icMdot] using hm) hr hd
+  have h := flux_eq_mdot o M sol amb yk q 2 de T0 (by norm_num) hr hd
   simpa [icMdot] using h
 
 /-- … and summed over the compounds the carried flux is exactly the prescribed mass flux. -/
 theorem flux_closed_sum (o : Oracle ℝ) (M : List ℝ) (sol : Bool) (amb : Amb ℝ) (yk : List ℝ) (q de : ℝ)
-    (T0 : Option ℝ) (hm : q ≠ 0) (hr : icRhoP o M sol amb yk (releaseT amb T0) ≠ 0) (hd : de ≠ 0)
+    (T0 : Option ℝ) (hr : icRhoP o M sol amb yk (releaseT amb T0) ≠ 0) (hd : de ≠ 0)
     (hS : (masses M yk).sum ≠ 0) :
     Num.sum (flux (initialConditions o M sol amb yk q 2 de T0)) = q := by
-  rw [flux_closed o M sol amb yk q de T0 hm hr hd, Num.real_sum]
+  rw [flux_closed o M sol amb yk q de T0 hr hd, Num.real_sum]
   simp only [Num.smul, sum_map_mul_left]
   cases sol with
   | true => simp [icMf, massFrac_sum M yk hS]
@@ -99,34 +144,33 @@ theorem flux_closed_sum (o : Oracle ℝ) (M : List ℝ) (sol : Bool) (amb : Amb 
 /-- STANDARD-VOLUME-FLUX convention (`q_type = 1`): `nb0 • m0 = (q · ρ_N) • mf`, `ρ_N` the particle
     density at 273.15 K, 1e5 Pa. -/
 theorem std_volume_flux (o : Oracle ℝ) (M : List ℝ) (sol : Bool) (amb : Amb ℝ) (yk : List ℝ) (q de : ℝ)
-    (T0 : Option ℝ) (hm : q * icRhoN o M sol yk ≠ 0)
-    (hr : icRhoP o M sol amb yk (releaseT amb T0) ≠ 0) (hd : de ≠ 0) :
+    (T0 : Option ℝ) (hr : icRhoP o M sol amb yk (releaseT amb T0) ≠ 0) (hd : de ≠ 0) :
     flux (initialConditions o M sol amb yk q 1 de T0)
       = Num.smul (q * icRhoN o M sol yk) (icMf M sol yk) := by
-  have h := flux_eq_mdot o M sol amb yk q 1 de T0 (by norm_num) (by simpa [icMdot] using hm) hr hd
+  have h := flux_eq_mdot o M sol amb yk q 1 de T0 (by norm_num) hr hd
   simpa [icMdot] using h
 
 /-- … and the total is the prescribed standard-condition volume flux × standard density. -/
 theorem std_volume_flux_sum (o : Oracle ℝ) (M : List ℝ) (sol : Bool) (amb : Amb ℝ) (yk : List ℝ)
-    (q de : ℝ) (T0 : Option ℝ) (hm : q * icRhoN o M sol yk ≠ 0)
+    (q de : ℝ) (T0 : Option ℝ)
     (hr : icRhoP o M sol amb yk (releaseT amb T0) ≠ 0) (hd : de ≠ 0) (hS : (masses M yk).sum ≠ 0) :
     Num.sum (flux (initialConditions o M sol amb yk q 1 de T0)) = q * icRhoN o M sol yk := by
-  rw [std_volume_flux o M sol amb yk q de T0 hm hr hd, Num.real_sum]
+  rw [std_volume_flux o M sol amb yk q de T0 hr hd, Num.real_sum]
   simp only [Num.smul, sum_map_mul_left]
   cases sol with
   | true => simp [icMf, massFrac_sum M yk hS]
   | false => simp [icMf]; norm_num
 
-/-- the standard density of `std_volume_flux` is the library density of the prescribed composition at
-    exactly 273.15 K and 1e5 Pa (insoluble: at `(273.15, 1e5, 0, 273.15)`). -/
+/-- (definitional) the standard density of `std_volume_flux` is the library density of the prescribed
+    composition at exactly 273.15 K and 1e5 Pa (insoluble: at `(273.15, 1e5, 0, 273.15)`). -/
 theorem std_density_state (o : Oracle ℝ) (M : List ℝ) (yk : List ℝ) :
     icRhoN o M true yk = o.rho (massFrac M yk) 273.15 100000 ∧
     icRhoN o M false yk = o.rhoI 273.15 100000 0 273.15 := by
   simp only [icRhoN, Num.real_ofSci]
   norm_num
 
-/-- PER-PARTICLE convention (`q_type = 0`): the number flux is 1 and the masses are those of ONE
-    particle of the prescribed diameter at release conditions. -/
+/-- (definitional) PER-PARTICLE convention (`q_type = 0`): the number flux is 1 and the masses are those
+    the library returns for ONE particle of the prescribed diameter at release conditions. -/
 theorem per_particle (o : Oracle ℝ) (M : List ℝ) (sol : Bool) (amb : Amb ℝ) (yk : List ℝ) (q de : ℝ)
     (T0 : Option ℝ) :
     (initialConditions o M sol amb yk q 0 de T0).nb0 = 1 ∧
@@ -136,8 +180,8 @@ theorem per_particle (o : Oracle ℝ) (M : List ℝ) (sol : Bool) (amb : Amb ℝ
   simp only [initialConditions, if_true, Num.real_ofSci]
   norm_num
 
-/-- the release state handed on is the ambient one at the release depth, and the particle
-    temperature is the prescribed one (ambient when none is given). -/
+/-- (definitional) the release state handed on is the ambient one at the release depth, and the
+    particle temperature is the prescribed one (ambient when none is given). -/
 theorem release_state (o : Oracle ℝ) (M : List ℝ) (sol : Bool) (amb : Amb ℝ) (yk : List ℝ) (q : ℝ)
     (qType : Nat) (de : ℝ) (T0 : Option ℝ) :
     let ic := initialConditions o M sol amb yk q qType de T0
@@ -149,14 +193,19 @@ example : flux (initialConditions exO [2, 4] true exAmb [1/2, 1/2] 3 2 (1/100) (
     = [3 * (1/3), 3 * (2/3)] := by
   rw [flux_closed]
   · simp [icMf, massFrac, masses, Num.vmul, Num.smul]; norm_num
+  · simp [icRhoP, exO, fluidOracle, releaseT, exAmb]
   · norm_num
+
+-- a zero flux is in the domain: number flux 0, finite per-particle masses, flux 0
+example : flux (initialConditions exO [2, 4] true exAmb [1/2, 1/2] 0 2 (1/100) (some 290)) = [0 * (1/3), 0 * (2/3)] := by
+  rw [flux_closed]
+  · simp [icMf, massFrac, masses, Num.vmul, Num.smul]
   · simp [icRhoP, exO, fluidOracle, releaseT, exAmb]
   · norm_num
 
 example : Num.sum (flux (initialConditions exO [2, 4] true exAmb [1/2, 1/2] 3 1 (1/100) none))
     = 3 * (100000 / (273.15 * 100)) := by
   rw [std_volume_flux_sum]
-  · simp [icRhoN, exO, fluidOracle]; norm_num
   · simp [icRhoN, exO, fluidOracle]; norm_num
   · simp [icRhoP, exO, fluidOracle, releaseT, exAmb]
   · norm_num
@@ -166,84 +215,86 @@ example : Num.sum (flux (initialConditions exO [2, 4] true exAmb [1/2, 1/2] 3 1 
 
 /-- flux conventions 1 and 2, SOLUBLE particle: the particle built has exactly the prescribed
     equivalent spherical diameter at release conditions (T0, P) — given that density is scale
-    invariant (`ScaleInvariant`, C10). -/
+    invariant (`ScaleInvariant`: hypothesis here, theorem for the EOS density, see `diameter_prescribed_eos`).
+    Holds for any flux, also zero. -/
 theorem diameter_prescribed (o : Oracle ℝ) (M : List ℝ) (amb : Amb ℝ) (yk : List ℝ) (q : ℝ)
     (qType : Nat) (de : ℝ) (T0 : Option ℝ) (hq : qType ≠ 0) (hscale : ScaleInvariant o.rho)
-    (hm : 0 < icMdot qType q (icRhoN o M true yk))
     (hr : 0 < o.rho (massFrac M yk) (releaseT amb T0) amb.P) (hd : 0 < de)
     (hS : (masses M yk).sum ≠ 0) :
     let ic := initialConditions o M true amb yk q qType de T0
     diameter o.rho ic.m0 ic.T0 ic.P = de := by
-  have hp := pi_pos
-  have hnb := icNb0_pos _ _ _ hm hr hd
-  have hc : 0 < icMdot qType q (icRhoN o M true yk)
-      / icNb0 (icMdot qType q (icRhoN o M true yk)) (o.rho (massFrac M yk) (releaseT amb T0) amb.P) de :=
-    div_pos hm hnb
+  have hc := icMass_pos _ _ hr hd
   simp only [initialConditions, if_neg hq, icMf, icRhoP, if_true, diameter, Num.real_sum,
     Num.real_rpow, Num.real_ofSci]
-  rw [hscale _ _ _ _ hc, sum_map_mul_left, massFrac_sum M yk hS,
-    mdot_div_nb0 _ _ _ (ne_of_gt hm) (ne_of_gt hr) (ne_of_gt hd)]
-  have e : (6.0 : ℝ) * (o.rho (massFrac M yk) (releaseT amb T0) amb.P * pi * de ^ 3 / 6 * 1)
-      / (pi * o.rho (massFrac M yk) (releaseT amb T0) amb.P) = de ^ 3 := by
-    field_simp
-    norm_num
+  rw [hscale _ _ _ _ hc, sum_map_mul_left, massFrac_sum M yk hS, mul_one]
+  have e6 : (6.0 : ℝ) = 6 := by norm_num
   have e3 : ((1.0 : ℝ) / 3.0) = (1 : ℝ) / 3 := by norm_num
-  rw [e, e3]
+  rw [e6, e3, six_mass _ _ (ne_of_gt hr)]
   exact cube_root_cube de (le_of_lt hd)
+
+/-- the same for the density REGENERATED from tamoc's equation of state, with NO scale-invariance
+    hypothesis (it is `eos_density_scaleInvariant`): any oracle whose `rho` is that density. -/
+theorem diameter_prescribed_eos (o : Oracle ℝ) (cr : List ℝ → List ℝ × List ℝ) (fp : Nat)
+    (M Pc Tc Vc w : List ℝ) (δ A B G : List (List ℝ)) (cd : ℝ) (Cp CpT : List ℝ)
+    (ho : o.rho = eosRho cr fp M Pc Tc Vc w δ A B G cd Cp CpT)
+    (amb : Amb ℝ) (yk : List ℝ) (q : ℝ) (qType : Nat) (de : ℝ) (T0 : Option ℝ) (hq : qType ≠ 0)
+    (hr : 0 < o.rho (massFrac M yk) (releaseT amb T0) amb.P) (hd : 0 < de)
+    (hS : (masses M yk).sum ≠ 0) :
+    let ic := initialConditions o M true amb yk q qType de T0
+    diameter o.rho ic.m0 ic.T0 ic.P = de :=
+  diameter_prescribed o M amb yk q qType de T0 hq
+    (by rw [ho]; exact eos_density_scaleInvariant cr fp M Pc Tc Vc w δ A B G cd Cp CpT) hr hd hS
 
 /-- flux conventions 1 and 2, INSOLUBLE particle: prescribed diameter, no library fact needed. -/
 theorem diameter_prescribed_insoluble (o : Oracle ℝ) (M : List ℝ) (amb : Amb ℝ) (yk : List ℝ) (q : ℝ)
     (qType : Nat) (de : ℝ) (T0 : Option ℝ) (hq : qType ≠ 0)
-    (hm : 0 < icMdot qType q (icRhoN o M false yk))
     (hr : 0 < o.rhoI (releaseT amb T0) amb.P amb.Sa amb.Ta) (hd : 0 < de) :
     let ic := initialConditions o M false amb yk q qType de T0
     diameterI o.rhoI (ic.m0.headD 0) ic.T0 ic.P ic.Sa ic.Ta = de := by
-  have hp := pi_pos
   simp only [initialConditions, if_neg hq, icMf, icRhoP, diameterI, Num.real_rpow, Num.real_ofSci,
     Bool.false_eq_true, if_false, List.map_cons, List.map_nil, List.headD_cons]
-  rw [mdot_div_nb0 _ _ _ (ne_of_gt hm) (ne_of_gt hr) (ne_of_gt hd)]
-  have e : (6.0 : ℝ) * (o.rhoI (releaseT amb T0) amb.P amb.Sa amb.Ta * pi * de ^ 3 / 6 * (1.0 : ℝ))
-      / (pi * o.rhoI (releaseT amb T0) amb.P amb.Sa amb.Ta) = de ^ 3 := by
-    field_simp
-    norm_num
+  have e6 : (6.0 : ℝ) = 6 := by norm_num
+  have e1 : (1.0 : ℝ) = 1 := by norm_num
   have e3 : ((1.0 : ℝ) / 3.0) = (1 : ℝ) / 3 := by norm_num
-  rw [e, e3]
+  rw [e3, e6, e1, mul_one, six_mass _ _ (ne_of_gt hr)]
   exact cube_root_cube de (le_of_lt hd)
 
-/-- per-particle convention: prescribed diameter, from the library's round trip (named hypotheses). -/
+/-- per-particle convention: prescribed diameter, from the library's (guarded) round trips — named
+    hypotheses that `roundTrips_hold` discharges for the transcribed library. -/
 theorem diameter_prescribed_per_particle (o : Oracle ℝ) (M : List ℝ) (amb : Amb ℝ) (yk : List ℝ)
     (q de : ℝ) (T0 : Option ℝ) (hd : 0 < de) :
-    (DiameterRoundTrip o →
+    (DiameterRoundTrip o M → MoleFractions M yk → 0 < o.rho (masses M yk) (releaseT amb T0) amb.P →
       let ic := initialConditions o M true amb yk q 0 de T0
       diameter o.rho ic.m0 ic.T0 ic.P = de) ∧
-    (DiameterRoundTripI o →
+    (DiameterRoundTripI o → 0 < o.rhoI (releaseT amb T0) amb.P amb.Sa amb.Ta →
       let ic := initialConditions o M false amb yk q 0 de T0
       diameterI o.rhoI (ic.m0.headD 0) ic.T0 ic.P ic.Sa ic.Ta = de) := by
   constructor
-  · intro h
+  · intro h hy hr
     simp only [initialConditions, if_true]
-    exact h de _ _ yk hd
-  · intro h
+    exact h de _ _ yk hd hy hr
+  · intro h hr
     simp only [initialConditions, if_true, Bool.false_eq_true, if_false, List.headD_cons]
-    exact h de _ _ _ _ hd
+    exact h de _ _ _ _ hd hr
 
-
-/-- the round trips hold for the transcribed `masses_by_diameter` / `mass_by_diameter` whenever the
-    density is scale invariant and positive: `DiameterRoundTrip`, `DiameterRoundTripI` and
-    `CompositionRoundTrip` are consequences of C10 for the code as written. -/
-theorem roundTrip_of_scaleInvariant (ρ : List ℝ → ℝ → ℝ → ℝ) (ρI : ℝ → ℝ → ℝ → ℝ → ℝ) (M : List ℝ)
-    (hscale : ScaleInvariant ρ) (hρ : ∀ m T P, 0 < ρ m T P) (hρI : ∀ T P Sa Ta, 0 < ρI T P Sa Ta)
-    (de T P : ℝ) (yk : List ℝ) (hd : 0 < de) (hy : yk.length = M.length) (hM : AllPos M)
-    (hS : 0 < (masses M yk).sum) (hsum : yk.sum = 1) :
-    diameter ρ ((fluidOracle ρ ρI M).mbd de T P yk) T P = de ∧
-    molFrac M ((fluidOracle ρ ρI M).mbd de T P yk) = yk ∧
-    (∀ Sa Ta, diameterI ρI ((fluidOracle ρ ρI M).mbdI de T P Sa Ta) T P Sa Ta = de) := by
+/-- THE ROUND TRIPS HOLD for the transcribed `masses_by_diameter` / `mass_by_diameter` (the code as
+    written, density an arbitrary scale-invariant oracle, molar masses positive): the three named
+    hypotheses are consequences of C10 — they are satisfiable and the per-particle theorems are not
+    vacuous. -/
+theorem roundTrips_hold (ρ : List ℝ → ℝ → ℝ → ℝ) (ρI : ℝ → ℝ → ℝ → ℝ → ℝ) (M : List ℝ)
+    (hscale : ScaleInvariant ρ) (hM : AllPos M) :
+    DiameterRoundTrip (fluidOracle ρ ρI M) M ∧ CompositionRoundTrip (fluidOracle ρ ρI M) M ∧
+    DiameterRoundTripI (fluidOracle ρ ρI M) := by
   have hp := pi_pos
+  have e6 : (6.0 : ℝ) = 6 := by norm_num
   have e3 : ((1.0 : ℝ) / 3.0) = (1 : ℝ) / 3 := by norm_num
-  have hr := hρ (masses M yk) T P
-  have hcpos : 0 < 1 / 6 * pi * de ^ 3 * ρ (masses M yk) T P / (masses M yk).sum := by positivity
   refine ⟨?_, ?_, ?_⟩
-  · simp only [fluidOracle, diameter, Num.real_sum, Num.real_rpow, Num.real_ofSci]
+  · intro de T P yk hd hy hr
+    obtain ⟨hl, hsum, hnn⟩ := hy
+    have hS : 0 < (masses M yk).sum := masses_sum_pos M yk hl hM hnn (by rw [hsum]; norm_num)
+    have hr' : 0 < ρ (masses M yk) T P := hr
+    have hcpos : 0 < 1 / 6 * pi * de ^ 3 * ρ (masses M yk) T P / (masses M yk).sum := by positivity
+    simp only [fluidOracle, diameter, Num.real_sum, Num.real_rpow, Num.real_ofSci]
     rw [massesByDiameter_eq, hscale _ _ _ _ hcpos, sum_map_mul_left]
     have e : (6.0 : ℝ) * (1 / 6 * pi * de ^ 3 * ρ (masses M yk) T P / (masses M yk).sum * (masses M yk).sum)
         / (pi * ρ (masses M yk) T P) = de ^ 3 := by
@@ -251,11 +302,16 @@ theorem roundTrip_of_scaleInvariant (ρ : List ℝ → ℝ → ℝ → ℝ) (ρI
       norm_num
     rw [e, e3]
     exact cube_root_cube de (le_of_lt hd)
-  · simp only [fluidOracle]
-    rw [massesByDiameter_eq, molFrac_scaled_masses _ M yk hy (fun x hx => ne_of_gt (hM x hx))
+  · intro de T P yk hd hy hr
+    obtain ⟨hl, hsum, hnn⟩ := hy
+    have hS : 0 < (masses M yk).sum := masses_sum_pos M yk hl hM hnn (by rw [hsum]; norm_num)
+    have hr' : 0 < ρ (masses M yk) T P := hr
+    have hcpos : 0 < 1 / 6 * pi * de ^ 3 * ρ (masses M yk) T P / (masses M yk).sum := by positivity
+    simp only [fluidOracle]
+    rw [massesByDiameter_eq, molFrac_scaled_masses _ M yk hl (fun x hx => ne_of_gt (hM x hx))
       (ne_of_gt hcpos) (by rw [hsum]; norm_num), hsum, map_div_one]
-  · intro Sa Ta
-    have hr := hρI T P Sa Ta
+  · intro de T P Sa Ta hd hr
+    have hr' : 0 < ρI T P Sa Ta := hr
     simp only [fluidOracle, massByDiameterI, diameterI, Num.real_rpow, Num.real_ofSci, Num.real_npow]
     have e : (6.0 : ℝ) * (1.0 / 6.0 * pi * de ^ 3 * ρI T P Sa Ta) / (pi * ρI T P Sa Ta) = de ^ 3 := by
       field_simp
@@ -263,86 +319,112 @@ theorem roundTrip_of_scaleInvariant (ρ : List ℝ → ℝ → ℝ → ℝ) (ρI
     rw [e, e3]
     exact cube_root_cube de (le_of_lt hd)
 
+/-- per-particle convention for the code as written (transcribed `masses_by_diameter`): prescribed
+    diameter AND mole fractions from scale invariance alone — no round-trip hypothesis left. -/
+theorem per_particle_transcribed (ρ : List ℝ → ℝ → ℝ → ℝ) (ρI : ℝ → ℝ → ℝ → ℝ → ℝ) (M : List ℝ)
+    (hscale : ScaleInvariant ρ) (hM : AllPos M) (amb : Amb ℝ) (yk : List ℝ) (q de : ℝ) (T0 : Option ℝ)
+    (hd : 0 < de) (hy : MoleFractions M yk) (hr : 0 < ρ (masses M yk) (releaseT amb T0) amb.P) :
+    let ic := initialConditions (fluidOracle ρ ρI M) M true amb yk q 0 de T0
+    diameter ρ ic.m0 ic.T0 ic.P = de ∧ molFrac M ic.m0 = yk := by
+  obtain ⟨h1, h2, _⟩ := roundTrips_hold ρ ρI M hscale hM
+  simp only [initialConditions, if_true]
+  exact ⟨h1 de _ _ yk hd hy hr, h2 de _ _ yk hd hy hr⟩
+
 example : diameter exO.rho (initialConditions exO [2, 4] true exAmb [1/2, 1/2] 3 2 (1/100) (some 290)).m0
     290 56000 = 1/100 := by
   have h := diameter_prescribed exO [2, 4] exAmb [1/2, 1/2] 3 2 (1/100) (some 290) (by norm_num)
-    exScale (by simp [icMdot]) (by simp [exO, fluidOracle, releaseT, exAmb]) (by norm_num)
+    exScale (by simp [exO, fluidOracle, releaseT, exAmb]) (by norm_num)
     (by simp [masses, Num.vmul]; norm_num)
   simpa [initialConditions, releaseT, exAmb] using h
 
+-- the guarded round-trip hypotheses are satisfied by a concrete oracle (non-vacuity) …
+example : DiameterRoundTrip exO [2, 4] ∧ CompositionRoundTrip exO [2, 4] ∧ DiameterRoundTripI exO :=
+  roundTrips_hold _ _ [2, 4] exScale exM
+
+-- … and give the prescribed diameter and composition of a single particle
+example : let ic := initialConditions exO [2, 4] true exAmb [1/2, 1/2] 0 0 (1/100) (some 290)
+    diameter (fun _ T P => P / (T * 100)) ic.m0 ic.T0 ic.P = 1/100 ∧ molFrac [2, 4] ic.m0 = [1/2, 1/2] :=
+  per_particle_transcribed _ _ [2, 4] exScale exM exAmb [1/2, 1/2] 0 (1/100) (some 290) (by norm_num) exYk
+    (by simp [releaseT, exAmb])
+
 -- ===================================================================== prescribed mole fractions
 
-/-- flux conventions 1 and 2: the particle built has exactly the prescribed mole fractions. -/
+/-- flux conventions 1 and 2: the particle built has exactly the prescribed mole fractions
+    (any flux, also zero). -/
 theorem mole_fractions_prescribed (o : Oracle ℝ) (M : List ℝ) (amb : Amb ℝ) (yk : List ℝ) (q : ℝ)
     (qType : Nat) (de : ℝ) (T0 : Option ℝ) (hq : qType ≠ 0)
-    (hm : icMdot qType q (icRhoN o M true yk) ≠ 0)
     (hr : o.rho (massFrac M yk) (releaseT amb T0) amb.P ≠ 0) (hd : de ≠ 0)
     (hl : yk.length = M.length) (hM : AllPos M) (hS : (masses M yk).sum ≠ 0) (hsum : yk.sum = 1) :
     molFrac M (initialConditions o M true amb yk q qType de T0).m0 = yk := by
-  have hnb := icNb0_ne _ _ _ hm hr hd
+  have hp := pi_ne
+  have hc : icMass (o.rho (massFrac M yk) (releaseT amb T0) amb.P) de ≠ 0 := by
+    rw [icMass_eq]
+    exact div_ne_zero (mul_ne_zero (mul_ne_zero hr hp) (pow_ne_zero 3 hd)) (by norm_num)
   simp only [initialConditions, if_neg hq, icMf, icRhoP, if_true]
-  rw [molFrac_scaled_massFrac _ M yk hl (fun x hx => ne_of_gt (hM x hx)) (div_ne_zero hm hnb) hS
+  rw [molFrac_scaled_massFrac _ M yk hl (fun x hx => ne_of_gt (hM x hx)) hc hS
     (by rw [hsum]; norm_num), hsum, map_div_one]
 
-/-- per-particle convention: prescribed mole fractions, from the library's round trip. -/
+/-- per-particle convention: prescribed mole fractions, from the library's (guarded) round trip. -/
 theorem mole_fractions_prescribed_per_particle (o : Oracle ℝ) (M : List ℝ) (amb : Amb ℝ) (yk : List ℝ)
-    (q de : ℝ) (T0 : Option ℝ) (hd : 0 < de) (hsum : yk.sum = 1) (h : CompositionRoundTrip o M) :
+    (q de : ℝ) (T0 : Option ℝ) (hd : 0 < de) (hy : MoleFractions M yk)
+    (hr : 0 < o.rho (masses M yk) (releaseT amb T0) amb.P) (h : CompositionRoundTrip o M) :
     molFrac M (initialConditions o M true amb yk q 0 de T0).m0 = yk := by
   simp only [initialConditions, if_true]
-  exact h de _ _ yk hd hsum
+  exact h de _ _ yk hd hy hr
 
 example : molFrac [2, 4] (initialConditions exO [2, 4] true exAmb [1/2, 1/2] 3 2 (1/100) (some 290)).m0
     = [1/2, 1/2] := by
   apply mole_fractions_prescribed
   · norm_num
-  · simp [icMdot]
   · simp [exO, fluidOracle, releaseT, exAmb]
   · norm_num
   · rfl
-  · intro x hx; simp at hx; rcases hx with h | h <;> rw [h] <;> norm_num
+  · exact exM
   · simp [masses, Num.vmul]; norm_num
   · norm_num
 
 -- ===================================================================== size bins
 
-/-- one bin of `blowout.particles` carries `vf_i · m_tot · mf_j` of compound `j`. -/
+/-- one bin of `blowout.particles` carries `mb0 · mf_j` of compound `j` (`mb0 = vf_i · m_tot`, may be 0). -/
 theorem bin_flux (o : Oracle ℝ) (M : List ℝ) (amb : Amb ℝ) (yk : List ℝ) (mb0 de Tj : ℝ) (j : Nat)
-    (hm : mb0 ≠ 0) (hr : o.rho (massFrac M yk) Tj amb.P ≠ 0) (hd : de ≠ 0) :
+    (hr : o.rho (massFrac M yk) Tj amb.P ≠ 0) (hd : de ≠ 0) :
     let ic := initialConditions o M true amb yk mb0 2 de (some Tj)
     ic.nb0 * ic.m0.getD j 0 = mb0 * (massFrac M yk).getD j 0 := by
   intro ic
-  rw [← flux_getD, flux_closed o M true amb yk mb0 de (some Tj) hm (by simpa [icRhoP, releaseT] using hr) hd,
+  rw [← flux_getD, flux_closed o M true amb yk mb0 de (some Tj) (by simpa [icRhoP, releaseT] using hr) hd,
     smul_getD]
   simp [icMf]
 
-/-- any volume fractions: the bins together carry `(Σ vf) · m_tot · mf_j` of every compound `j` -/
+/-- any volume fractions (also zero ones — empty bins): the bins together carry
+    `(Σ vf) · m_tot · mf_j` of every compound `j` -/
 theorem bins_sum (o : Oracle ℝ) (M : List ℝ) (amb : Amb ℝ) (mTot : ℝ) (yk : List ℝ) (Tj : ℝ) (j : Nat)
-    (hm : 0 < mTot) (hr : 0 < o.rho (massFrac M yk) Tj amb.P) :
-    ∀ (d vf : List ℝ), d.length = vf.length → AllPos d → AllPos vf →
+    (hr : 0 < o.rho (massFrac M yk) Tj amb.P) :
+    ∀ (d vf : List ℝ), d.length = vf.length → AllPos d →
       compFlux j (particles o M amb mTot d vf yk Tj) = vf.sum * mTot * (massFrac M yk).getD j 0
-  | [], [], _, _, _ => by simp [particles, compFlux_nil]
-  | [], _ :: _, h, _, _ => by simp at h
-  | _ :: _, [], h, _, _ => by simp at h
-  | d :: ds, v :: vs, h, hd, hv => by
+  | [], [], _, _ => by simp [particles, compFlux_nil]
+  | [], _ :: _, h, _ => by simp at h
+  | _ :: _, [], h, _ => by simp at h
+  | d :: ds, v :: vs, h, hd => by
       have hd0 : 0 < d := hd d (by simp)
-      have hv0 : 0 < v := hv v (by simp)
-      have ih := bins_sum o M amb mTot yk Tj j hm hr ds vs (by simpa using h)
-        (fun x hx => hd x (by simp [hx])) (fun x hx => hv x (by simp [hx]))
-      have hb := bin_flux o M amb yk (v * mTot) d Tj j (ne_of_gt (mul_pos hv0 hm)) (ne_of_gt hr) (ne_of_gt hd0)
+      have ih := bins_sum o M amb mTot yk Tj j hr ds vs (by simpa using h)
+        (fun x hx => hd x (by simp [hx]))
+      have hb := bin_flux o M amb yk (v * mTot) d Tj j (ne_of_gt hr) (ne_of_gt hd0)
       simp only [particles, compFlux_cons, ih, List.sum_cons]
       simp only at hb
       rw [hb]
       ring
 
 /-- SIZE DISTRIBUTION: with `Σ vf = 1` the bins of `blowout.particles` together carry exactly the
-    phase total `m_tot · mf_j` of every compound `j` (any number of bins, any number of compounds). -/
+    phase total `m_tot · mf_j` of every compound `j` (any number of bins, any number of compounds;
+    volume fractions may vanish: an empty bin carries nothing and spoils nothing). -/
 theorem bins_total (o : Oracle ℝ) (M : List ℝ) (amb : Amb ℝ) (mTot : ℝ) (yk : List ℝ) (Tj : ℝ) (j : Nat)
-    (d vf : List ℝ) (hm : 0 < mTot) (hr : 0 < o.rho (massFrac M yk) Tj amb.P)
-    (hl : d.length = vf.length) (hd : AllPos d) (hv : AllPos vf) (hsum : vf.sum = 1) :
+    (d vf : List ℝ) (hr : 0 < o.rho (massFrac M yk) Tj amb.P)
+    (hl : d.length = vf.length) (hd : AllPos d) (hsum : vf.sum = 1) :
     compFlux j (particles o M amb mTot d vf yk Tj) = mTot * (massFrac M yk).getD j 0 := by
-  rw [bins_sum o M amb mTot yk Tj j hm hr d vf hl hd hv, hsum, one_mul]
+  rw [bins_sum o M amb mTot yk Tj j hr d vf hl hd, hsum, one_mul]
 
-/-- one particle class per size bin (`for i in range(len(d))`). -/
+/-- one particle class per size bin (`for i in range(len(d))`; volume fractions beyond `len(d)` are
+    not used). -/
 theorem bins_number (o : Oracle ℝ) (M : List ℝ) (amb : Amb ℝ) (mTot : ℝ) (yk : List ℝ) (Tj : ℝ)
     (d vf : List ℝ) : (particles o M amb mTot d vf yk Tj).length = min d.length vf.length := by
   induction d generalizing vf with
@@ -352,77 +434,88 @@ theorem bins_number (o : Oracle ℝ) (M : List ℝ) (amb : Amb ℝ) (mTot : ℝ)
     | nil => simp [particles]
     | cons v vs => simp [particles, ih, Nat.succ_min_succ]
 
+private theorem exD : AllPos [1/100, 1/50, 1/25] := by
+  intro x hx; simp at hx; rcases hx with h | h | h <;> rw [h] <;> norm_num
+
 example : compFlux 1 (particles exO [2, 4] exAmb 5 [1/100, 1/50, 1/25] [1/4, 1/4, 1/2] [1/2, 1/2] 290)
     = 5 * (2/3) := by
   rw [bins_total]
   · simp [massFrac, masses, Num.vmul]; norm_num
-  · norm_num
   · simp [exO, fluidOracle, exAmb]
   · rfl
-  · intro x hx; simp at hx; rcases hx with h | h | h <;> rw [h] <;> norm_num
-  · intro x hx; simp at hx; rcases hx with h | h <;> rw [h] <;> norm_num
+  · exact exD
+  · norm_num
+
+-- an empty bin in the distribution
+example : compFlux 1 (particles exO [2, 4] exAmb 5 [1/100, 1/50, 1/25] [1/2, 0, 1/2] [1/2, 1/2] 290)
+    = 5 * (2/3) := by
+  rw [bins_total]
+  · simp [massFrac, masses, Num.vmul]; norm_num
+  · simp [exO, fluidOracle, exAmb]
+  · rfl
+  · exact exD
   · norm_num
 
 -- ===================================================================== blowout
 
 /-- one phase of the blowout: its bins carry the phase's mass of compound `j` as returned by the
     flash — because the mass fractions of the handed-over mole fractions times the handed-over total
-    reproduce the flash's own phase masses (`PhaseConsistent`). -/
+    reproduce the flash's own phase masses (`PhaseConsistent`, a hypothesis about the flash). -/
 theorem phase_total (o : Oracle ℝ) (M : List ℝ) (amb : Amb ℝ) (m xi : List ℝ) (Tj : ℝ) (j : Nat)
     (d vf : List ℝ) (hc : PhaseConsistent M m xi) (hr : 0 < o.rho (massFrac M xi) Tj amb.P)
-    (hS : 0 < (masses M xi).sum)
-    (hl : d.length = vf.length) (hd : AllPos d) (hv : AllPos vf) (hsum : vf.sum = 1) :
+    (hl : d.length = vf.length) (hd : AllPos d) (hsum : vf.sum = 1) :
     compFlux j (particles o M amb (Num.sum m) d vf xi Tj) = m.getD j 0 := by
-  obtain ⟨n, hn, hS', hmeq⟩ := hc
+  obtain ⟨n, _hn, hS', hmeq⟩ := hc
   have hsumm : Num.sum m = n * (masses M xi).sum := by
     rw [Num.real_sum, hmeq, sum_map_mul_left]
-  rw [bins_total o M amb _ xi Tj j d vf (by rw [hsumm]; positivity) hr hl hd hv hsum, hsumm,
+  rw [bins_total o M amb _ xi Tj j d vf hr hl hd hsum, hsumm,
     massFrac_getD, hmeq, getD_map0 _ (by simp)]
   field_simp
 
 /-- BLOWOUT, both phases present: the particle fluxes summed over ALL gas and liquid bins equal the
-    released mass flux of EVERY compound — given that the equilibrium split conserves mass
-    (`hcons`, C02) and hands over consistent phase data (`PhaseConsistent`). -/
+    released mass flux of EVERY compound — GIVEN (hypotheses, not lemmas) that the equilibrium split
+    conserves mass (`hcons`; this is property C02) and hands over consistent phase data
+    (`PhaseConsistent`). -/
 theorem blowout_total (oGas oLiq : Oracle ℝ) (M : List ℝ) (amb : Amb ℝ)
     (massFlux mGas mLiq xiGas xiLiq dGas vfGas dLiq vfLiq : List ℝ) (Tj : ℝ) (j : Nat)
     (hcons : mGas.getD j 0 + mLiq.getD j 0 = massFlux.getD j 0)
     (hcG : PhaseConsistent M mGas xiGas) (hcL : PhaseConsistent M mLiq xiLiq)
-    (hSG : 0 < (masses M xiGas).sum) (hSL : 0 < (masses M xiLiq).sum)
     (hrG : 0 < oGas.rho (massFrac M xiGas) Tj amb.P) (hrL : 0 < oLiq.rho (massFrac M xiLiq) Tj amb.P)
-    (hlG : dGas.length = vfGas.length) (hdG : AllPos dGas) (hvG : AllPos vfGas) (hsG : vfGas.sum = 1)
-    (hlL : dLiq.length = vfLiq.length) (hdL : AllPos dLiq) (hvL : AllPos vfLiq) (hsL : vfLiq.sum = 1) :
+    (hlG : dGas.length = vfGas.length) (hdG : AllPos dGas) (hsG : vfGas.sum = 1)
+    (hlL : dLiq.length = vfLiq.length) (hdL : AllPos dLiq) (hsL : vfLiq.sum = 1) :
     compFlux j (blowoutPhases oGas oLiq M amb mGas mLiq xiGas xiLiq dGas vfGas dLiq vfLiq Tj)
       = massFlux.getD j 0 := by
   rw [blowoutPhases, compFlux_append,
-    phase_total oGas M amb mGas xiGas Tj j dGas vfGas hcG hrG hSG hlG hdG hvG hsG,
-    phase_total oLiq M amb mLiq xiLiq Tj j dLiq vfLiq hcL hrL hSL hlL hdL hvL hsL, hcons]
+    phase_total oGas M amb mGas xiGas Tj j dGas vfGas hcG hrG hlG hdG hsG,
+    phase_total oLiq M amb mLiq xiLiq Tj j dLiq vfLiq hcL hrL hlL hdL hsL, hcons]
 
-/-- BLOWOUT with an absent gas phase (GOR 0, or all gas dissolved at depth): the flash returns zero
-    gas masses and the size-distribution model returns no gas bins; the liquid bins alone carry the
-    released mass flux of every compound. -/
+/-- BLOWOUT with an absent gas phase (GOR 0, or all gas dissolved at depth) and NO gas bins (what the
+    size-distribution model returns then): the liquid bins alone carry the released mass flux of every
+    compound.  (Gas bins supplied for an absent gas phase are outside this statement: the real code
+    turns them into NaN — known finding `blowout-total-user-bins-absent-phase`.) -/
 theorem blowout_total_no_gas (oGas oLiq : Oracle ℝ) (M : List ℝ) (amb : Amb ℝ)
     (massFlux mGas mLiq xiGas xiLiq vfGas dLiq vfLiq : List ℝ) (Tj : ℝ) (j : Nat)
     (hcons : mGas.getD j 0 + mLiq.getD j 0 = massFlux.getD j 0) (hG0 : mGas.getD j 0 = 0)
-    (hcL : PhaseConsistent M mLiq xiLiq) (hSL : 0 < (masses M xiLiq).sum)
+    (hcL : PhaseConsistent M mLiq xiLiq)
     (hrL : 0 < oLiq.rho (massFrac M xiLiq) Tj amb.P)
-    (hlL : dLiq.length = vfLiq.length) (hdL : AllPos dLiq) (hvL : AllPos vfLiq) (hsL : vfLiq.sum = 1) :
+    (hlL : dLiq.length = vfLiq.length) (hdL : AllPos dLiq) (hsL : vfLiq.sum = 1) :
     compFlux j (blowoutPhases oGas oLiq M amb mGas mLiq xiGas xiLiq [] vfGas dLiq vfLiq Tj)
       = massFlux.getD j 0 := by
   rw [blowoutPhases, compFlux_append,
-    phase_total oLiq M amb mLiq xiLiq Tj j dLiq vfLiq hcL hrL hSL hlL hdL hvL hsL, ← hcons, hG0]
+    phase_total oLiq M amb mLiq xiLiq Tj j dLiq vfLiq hcL hrL hlL hdL hsL, ← hcons, hG0]
   simp [particles, compFlux_nil]
 
-/-- BLOWOUT with an absent liquid phase (gas release): symmetric. -/
+/-- BLOWOUT with an absent liquid phase (gas release) and no liquid bins: symmetric. -/
 theorem blowout_total_no_liquid (oGas oLiq : Oracle ℝ) (M : List ℝ) (amb : Amb ℝ)
     (massFlux mGas mLiq xiGas xiLiq dGas vfGas vfLiq : List ℝ) (Tj : ℝ) (j : Nat)
     (hcons : mGas.getD j 0 + mLiq.getD j 0 = massFlux.getD j 0) (hL0 : mLiq.getD j 0 = 0)
-    (hcG : PhaseConsistent M mGas xiGas) (hSG : 0 < (masses M xiGas).sum)
+    (hcG : PhaseConsistent M mGas xiGas)
     (hrG : 0 < oGas.rho (massFrac M xiGas) Tj amb.P)
-    (hlG : dGas.length = vfGas.length) (hdG : AllPos dGas) (hvG : AllPos vfGas) (hsG : vfGas.sum = 1) :
+    (hlG : dGas.length = vfGas.length) (hdG : AllPos dGas) (hsG : vfGas.sum = 1) :
     compFlux j (blowoutPhases oGas oLiq M amb mGas mLiq xiGas xiLiq dGas vfGas [] vfLiq Tj)
       = massFlux.getD j 0 := by
   rw [blowoutPhases, compFlux_append,
-    phase_total oGas M amb mGas xiGas Tj j dGas vfGas hcG hrG hSG hlG hdG hvG hsG, ← hcons, hL0]
+    phase_total oGas M amb mGas xiGas Tj j dGas vfGas hcG hrG hlG hdG hsG, ← hcons, hL0]
   simp [particles, compFlux_nil]
 
 example : compFlux 0 (blowoutPhases exO exO [2, 4] exAmb [1, 2] [3, 2] [1/2, 1/2] [3/4, 1/4]
@@ -431,30 +524,24 @@ example : compFlux 0 (blowoutPhases exO exO [2, 4] exAmb [1, 2] [3, 2] [1/2, 1/2
   · norm_num
   · exact ⟨1, by norm_num, by simp [masses, Num.vmul]; norm_num, by simp [masses, Num.vmul]; norm_num⟩
   · exact ⟨2, by norm_num, by simp [masses, Num.vmul]; norm_num, by simp [masses, Num.vmul]; norm_num⟩
-  · simp [masses, Num.vmul]; norm_num
-  · simp [masses, Num.vmul]; norm_num
   · simp [exO, fluidOracle, exAmb]
   · simp [exO, fluidOracle, exAmb]
   · rfl
-  · intro x hx; simp at hx; rw [hx]; norm_num
   · intro x hx; simp at hx; rw [hx]; norm_num
   · norm_num
   · rfl
   · intro x hx; simp at hx; rcases hx with h | h <;> rw [h] <;> norm_num
-  · intro x hx; simp at hx; rw [hx]; norm_num
   · norm_num
 
 -- ===================================================================== stratified-plume helpers
 
-/-- `particle_from_mb0` / `particle_from_Q` are `initial_conditions` with the mass-flux / the
-    standard-volume-flux convention: their particles satisfy `flux_closed` / `std_volume_flux`. -/
+/-- (corollary) `particle_from_mb0` / `particle_from_Q` are `initial_conditions` with the mass-flux /
+    the standard-volume-flux convention: their particles satisfy `flux_closed` / `std_volume_flux`. -/
 theorem particle_from_flux (o : Oracle ℝ) (M : List ℝ) (sol : Bool) (amb : Amb ℝ) (yk : List ℝ)
     (x de : ℝ) (T0 : Option ℝ) (hr : icRhoP o M sol amb yk (releaseT amb T0) ≠ 0) (hd : de ≠ 0) :
-    (x ≠ 0 → flux (particleFromMb0 o M sol amb yk x de T0) = Num.smul x (icMf M sol yk)) ∧
-    (x * icRhoN o M sol yk ≠ 0 →
-      flux (particleFromQ o M sol amb yk x de T0) = Num.smul (x * icRhoN o M sol yk) (icMf M sol yk)) :=
-  ⟨fun hx => flux_closed o M sol amb yk x de T0 hx hr hd,
-   fun hx => std_volume_flux o M sol amb yk x de T0 hx hr hd⟩
+    flux (particleFromMb0 o M sol amb yk x de T0) = Num.smul x (icMf M sol yk) ∧
+    flux (particleFromQ o M sol amb yk x de T0) = Num.smul (x * icRhoN o M sol yk) (icMf M sol yk) :=
+  ⟨flux_closed o M sol amb yk x de T0 hr hd, std_volume_flux o M sol amb yk x de T0 hr hd⟩
 
 -- ===================================================================== first plume element
 
@@ -463,9 +550,10 @@ theorem particle_from_flux (o : Oracle ℝ) (M : List ℝ) (sol : Bool) (amb : A
 theorem fill_time (A Q : ℝ) (hA : 0 ≤ A) :
     fillTime A Q = A * (Real.sqrt (4 * A / pi) / 5) / Q := fillTime_eq A Q hA
 
-/-- FIRST ELEMENT ROW: the dispersed-phase section of the initial state is, particle after particle,
-    `m · (nb0 · dt)` for every compound, the heat `Σm · (nb0 · dt) · cp · T`, then age 0 and position
-    (0, 0, 0) — `dt` the fill time: the element carries the particles released during its fill time. -/
+/-- FIRST ELEMENT ROW (unfolds the packing loop for any number of particle classes): the
+    dispersed-phase section of the initial state is, particle after particle, `m · (nb0 · dt)` for
+    every compound, the heat `Σm · (nb0 · dt) · cp · T`, then age 0 and position (0, 0, 0) — `dt` the
+    fill time: the element carries the particles released during its fill time. -/
 theorem first_element_row (A Q : ℝ) (ps : List (Prt ℝ)) :
     firstRow A Q ps = (ps.map fun p =>
       p.m.map (· * (p.nb0 * fillTime A Q))
@@ -477,7 +565,7 @@ theorem first_element_row (A Q : ℝ) (ps : List (Prt ℝ)) :
     simp only [List.map_cons, stateSpace, ih, List.flatten_cons, block, Num.real_sum, Num.real_ofSci]
     norm_num
 
-/-- the number of particles of class `i` in the first element is `nb0_i · dt`. -/
+/-- (definitional) the number of particles of class `i` in the first element is `nb0_i · dt`. -/
 theorem first_element_number (A Q : ℝ) (ps : List (Prt ℝ)) (i : Nat) (hi : i < ps.length) :
     (nbe (fillTime A Q) ps).getD i 0 = (ps.map (·.nb0)).getD i 0 * fillTime A Q := by
   simp only [nbe]
@@ -488,8 +576,8 @@ theorem first_element_number (A Q : ℝ) (ps : List (Prt ℝ)) (i : Nat) (hi : i
     | zero => simp
     | succ i => simpa using ih i (by simpa using hi)
 
-/-- … so the component masses stored for a particle class add up to (mass of one particle) ×
-    (number released during the fill time). -/
+/-- the component masses stored for a particle class add up to (mass of one particle) × (number
+    released during the fill time). -/
 theorem first_element_mass (p : Prt ℝ) (nb : ℝ) :
     ((block p nb).take p.m.length).sum = p.m.sum * nb := by
   simp [block, sum_map_mul_right]
@@ -499,6 +587,22 @@ theorem first_element_length (A Q : ℝ) (ps : List (Prt ℝ)) :
     (firstRow A Q ps).length = (ps.map fun p => p.m.length + 5).sum := by
   rw [first_element_row]
   simp [List.length_flatten, Function.comp_def]
+
+/-- END TO END: a particle class set up by `initial_conditions` with mass flux `q` contributes
+    `q · mf_j · dt` of compound `j` to the first element — the prescribed flux times the fill time. -/
+theorem first_element_carries_flux (o : Oracle ℝ) (M : List ℝ) (amb : Amb ℝ) (yk : List ℝ) (q de : ℝ)
+    (T0 : Option ℝ) (dt : ℝ) (j : Nat)
+    (hr : o.rho (massFrac M yk) (releaseT amb T0) amb.P ≠ 0) (hd : de ≠ 0) :
+    let ic := initialConditions o M true amb yk q 2 de T0
+    (ic.m0.map (· * (ic.nb0 * dt))).getD j 0 = q * (massFrac M yk).getD j 0 * dt := by
+  intro ic
+  rw [getD_map0 _ (by simp)]
+  have h := bin_flux o M amb yk q de ((releaseT amb T0)) j hr hd
+  have e : initialConditions o M true amb yk q 2 de (some (releaseT amb T0)) = ic := by
+    simp [ic, initialConditions, releaseT]
+  simp only [e] at h
+  calc ic.m0.getD j 0 * (ic.nb0 * dt) = ic.nb0 * ic.m0.getD j 0 * dt := by ring
+    _ = q * (massFrac M yk).getD j 0 * dt := by rw [h]
 
 example : firstRow (2 : ℝ) 4 [{ m := [1, 2], nb0 := 10, cp := 3, T := 5 }]
     = [1 * (10 * fillTime 2 4), 2 * (10 * fillTime 2 4), (1 + 2) * (10 * fillTime 2 4) * 3 * 5, 0, 0, 0, 0] := by
